@@ -82,9 +82,9 @@ CLAIMED["C06"] = dict(
     technique="polynomial identities over Z/2^32 on the extracted unsigned instantiation (cbmc + z3 som) and relational / IEEE lemma harnesses (cvc5)",
     ref="6/C06, 10.3")
 CLAIMED["C14"] = dict(
-    text="Proof for three clauses: intersects(box, ray, ip) and findEntryAndExitPoints return false for every empty box; when the ray origin lies in a non-empty box intersects returns true with ip == origin (dfcc-enforced contracts with exact frames, arithmetic uninterpreted since only comparisons and copies matter); intersects(box, ray) is the boolean of the three-argument form for all finite inputs (IEEE, cvc5).",
+    text="Proof for three clauses: intersects(box, ray, ip) and findEntryAndExitPoints return false for every empty box; when the ray origin lies in a non-empty box intersects returns true with ip == origin (dfcc-enforced contracts with exact frames, arithmetic uninterpreted since only comparisons and copies matter); intersects(box, ray) is the boolean of the three-argument form for all finite inputs (IEEE, cvc5); findEntryAndExitPoints and intersects(box, ray, ip) return the same answer when box and line are cyclically relabelled x<-y<-z (arithmetic uninterpreted): the three hand-copied per-axis blocks agree with each other.",
     note="Trusted: clang AST + cxx2c (differentially validated), cbmc, cvc5, minisat. The geometric core of the property (exact truth value, reported points in the box / on the ray, first point of contact) is NOT decided: the in-box lemma was attempted and timed out.",
-    technique="CBMC function contracts (dfcc) on extracted C + relational lemma harness, SAT / cvc5",
+    technique="CBMC function contracts (dfcc) on extracted C + relational lemma harnesses (wrapper, axis relabelling), SAT / kissat / cvc5",
     ref="6/C14, 10.3")
 
 CLAIMED["C09"] = dict(
@@ -93,7 +93,7 @@ CLAIMED["C09"] = dict(
     technique="polynomial identities over Z/2^32 on the extracted unsigned instantiation (cbmc --z3 --outfile + z3 sum-of-monomials)",
     ref="6/C09, 10.3")
 CLAIMED["C10"] = dict(
-    text="Proof for the algebraic clauses, homogenised so that each identity holds for EVERY quaternion and specialises to the property at unit norm N = q.q = 1 (RING, T = unsigned): v*q == v*q.toMatrix33(); q.rotateVector(v) == v*q + (N-1)v; toMatrix33 and toMatrix44 hold the same block with an affine border; with K(q) = M(q) + (N-1)I, K(q1*q2) == K(q2)*K(q1) (quaternion multiplication is multiplication of the rotation matrices, row-vector convention); ~q negates the vector part only and q * ~q == (N,0,0,0).",
+    text="Proof for the algebraic clauses, homogenised so that each identity holds for EVERY quaternion and specialises to the property at unit norm N = q.q = 1 (RING, T = unsigned): v*q == v*q.toMatrix33(); q.rotateVector(v) == v*q + (N-1)v; toMatrix33 and toMatrix44 hold the same block with an affine border; with K(q) = M(q) + (N-1)I, K(q1*q2) == K(q2)*K(q1) (quaternion multiplication is multiplication of the rotation matrices, row-vector convention); ~q negates the vector part only and q * ~q == (N,0,0,0). Interpolation family (Quat<float>, arithmetic and libm uninterpreted): slerpShortestArc == slerp towards the representative of q2 with non-negative dot product (never the long way round); squad == slerp(slerp(q1,q2,t), slerp(qa,qb,t), 2t(1-t)); intermediate == normalized(q1 * exp(-1/4 (log(q1^-1 q0) + log(q1^-1 q2)))) with that operand order; spline == squad(q1, intermediate(q0,q1,q2), intermediate(q1,q2,q3), q2, t) (checked modularly against pure-function interfaces of its callees).",
     note="Trusted: clang AST + cxx2c, cbmc, z3-new som. Not covered: exp/log, axis/angle, extractQuat, setRotation(from,to), slerp family, Quat vs Matrix44 setAxisAngle (transcendental functions, normalisation), q*inverse(q) (division).",
     technique="polynomial identities over Z/2^32 on the extracted unsigned instantiation (cbmc --z3 --outfile + z3 sum-of-monomials)",
     ref="6/C10, 10.3")
